@@ -50,6 +50,7 @@ CLASS_KEY = {
 PRIORITY = ['opaque', 'wh-recreate', 'dropped-entry', 'recreate', 'implicit-dir', 'rejected-shadow', 'rejected-parents']
 DUP_KEY = 'C04/same-layer-duplicate-first-wins'
 REQ_KEY = 'C04/squash-requirer-writes-replaced-file'
+OPEN_KEY = 'C04/open-hands-out-the-shared-node'
 STATS = collections.Counter()
 
 
@@ -150,6 +151,10 @@ def _judge1(case, fi, fm):
     sv = _squash_verdict(case, fi, wf)
     if sv[0] is not None and sv[1] is None:
         return sv
+    if not (finding or sv[0]) and fi.get('twoh', '0') != '0':
+        # every view agrees with the overlay when a path is read by ONE reader; two handles of one path open at once do not
+        return ('two handles of one path open at the same time share one read offset: the second reader of a file (of 2 bytes or more) does not get '
+                'its whole content (FS.Open returns the shared node with its cached *os.File)'), OPEN_KEY
     return finding or sv
 
 
